@@ -15,6 +15,8 @@
 //! `Scratch::split_at_mut(need)` on the rest give the exact window as a `&mut Scratch<BE>` of `need` bytes.
 use poulpy_core::api::*;
 use poulpy_core::layouts::*;
+use poulpy_bin_fhe::blind_rotation::{BlindRotationKey, BlindRotationKeyEncryptSk, BlindRotationKeyLayout, BlindRotationKeyPrepared, CGGI, LookUpTableLayout, LookupTable};
+use poulpy_ckks::{CKKSMeta, layouts::{CKKSCiphertext, CKKSPlaintextVecZnx}, leveled::api::*};
 use poulpy_core::EncryptionLayout;
 use poulpy_hal::api::*;
 use poulpy_hal::layouts::*;
@@ -66,6 +68,7 @@ where
 fn src(seed: u64) -> Source { let mut s = [0u8; 32]; s[..8].copy_from_slice(&seed.to_le_bytes()); Source::new(s) }
 fn rand_bytes(b: &mut [u8], seed: u64, mask: u8) { let mut g = Rng::new(seed); for x in b.iter_mut() { *x = (g.next() as u8) & mask; } }
 fn u(x: i128) -> usize { x as usize }
+fn ser_bytes<T: WriterTo>(x: &T) -> Vec<u8> { let mut v = Vec::new(); x.write_to(&mut v).unwrap(); v }
 
 /// layout descriptions travel as 6 numbers: base2k, k, rank (= rank_out), rank_in, dnum, dsize
 fn glwe_l(n: usize, q: &[i128]) -> GLWELayout {
@@ -390,8 +393,239 @@ macro_rules! body {
                 let (ak, bk) = (u(p[9]), u(p[15]));
                 $go(module.glwe_tensor_apply_tmp_bytes(&lr, &la, &lb), &mut |s: &mut Scratch<$T>| {
                     module.glwe_tensor_apply(off, &mut r, &a, ak, &b, bk, s); r.data().data.clone() }) }
+            // ------------------------------------------------------------------ oracle-only operations (no take tree): exact window + two fills
+            130..=138 => { // key / matrix encryption routines [be n | key(6) n_lwe]
+                let lk = gglwe_l(n, &p[2..8]); let nl = p[8] as u32;
+                let noise = NoiseInfos::new(u(p[3]), poulpy_core::DEFAULT_SIGMA_XE, 6.0 * poulpy_core::DEFAULT_SIGMA_XE).unwrap();
+                let mut sk_out = GLWESecret::alloc(Degree(n as u32), lk.rank_out); sk_out.fill_ternary_prob(0.5, &mut src(110));
+                let mut sk_in = GLWESecret::alloc(Degree(n as u32), lk.rank_in); sk_in.fill_ternary_prob(0.5, &mut src(111));
+                let mut skp = module.glwe_secret_prepared_alloc(lk.rank_out); module.glwe_secret_prepare(&mut skp, &sk_out);
+                let mut sk_lwe = LWESecret::alloc(Degree(nl)); sk_lwe.fill_ternary_prob(0.5, &mut src(112));
+                let mut sk_lwe2 = LWESecret::alloc(Degree(nl)); sk_lwe2.fill_ternary_prob(0.5, &mut src(113));
+                match $op {
+                    130 => { let mut pt = ScalarZnx::alloc(n, lk.rank_in.as_usize()); pt.fill_ternary_prob(0, 0.5, &mut src(114));
+                        let mut res = GGLWE::alloc_from_infos(&lk);
+                        $go(module.gglwe_encrypt_sk_tmp_bytes(&lk), &mut |s: &mut Scratch<$T>| {
+                            module.gglwe_encrypt_sk(&mut res, &pt, &skp, &noise, &mut src(115), &mut src(116), s); res.data().data().clone() }) }
+                    131 => { let lg = ggsw_l(n, &p[2..8]); let mut pt = ScalarZnx::alloc(n, 1); pt.fill_ternary_prob(0, 0.5, &mut src(114));
+                        let mut res = GGSW::alloc_from_infos(&lg);
+                        $go(module.ggsw_encrypt_sk_tmp_bytes(&lg), &mut |s: &mut Scratch<$T>| {
+                            module.ggsw_encrypt_sk(&mut res, &pt, &skp, &noise, &mut src(115), &mut src(116), s); res.at(0, 0).data().data.to_vec() }) }
+                    132 => { let mut res = GLWESwitchingKey::alloc_from_infos(&lk);
+                        $go(module.glwe_switching_key_encrypt_sk_tmp_bytes(&lk), &mut |s: &mut Scratch<$T>| {
+                            module.glwe_switching_key_encrypt_sk(&mut res, &sk_in, &sk_out, &noise, &mut src(115), &mut src(116), s); res.to_ref().data().data().to_vec() }) }
+                    133 => { let mut res = GLWEAutomorphismKey::alloc_from_infos(&lk); let g = module.galois_element(1);
+                        $go(module.glwe_automorphism_key_encrypt_sk_tmp_bytes(&lk), &mut |s: &mut Scratch<$T>| {
+                            module.glwe_automorphism_key_encrypt_sk(&mut res, g, &sk_out, &noise, &mut src(115), &mut src(116), s); res.to_ref().data().data().to_vec() }) }
+                    134 => { let mut res = GLWETensorKey::alloc_from_infos(&lk);
+                        $go(module.glwe_tensor_key_encrypt_sk_tmp_bytes(&lk), &mut |s: &mut Scratch<$T>| {
+                            module.glwe_tensor_key_encrypt_sk(&mut res, &sk_out, &noise, &mut src(115), &mut src(116), s); res.to_ref().data().data().to_vec() }) }
+                    135 => { let mut res = GGLWEToGGSWKey::alloc_from_infos(&lk);
+                        $go(<M as GGLWEToGGSWKeyEncryptSk<$T>>::gglwe_to_ggsw_key_encrypt_sk_tmp_bytes(&module, &lk), &mut |s: &mut Scratch<$T>| {
+                            <M as GGLWEToGGSWKeyEncryptSk<$T>>::gglwe_to_ggsw_key_encrypt_sk(&module, &mut res, &sk_out, &noise, &mut src(115), &mut src(116), s); ser_bytes(&res) }) }
+                    136 => { let mut res = LWESwitchingKey::alloc_from_infos(&lk);
+                        $go(module.lwe_switching_key_encrypt_sk_tmp_bytes(&lk), &mut |s: &mut Scratch<$T>| {
+                            module.lwe_switching_key_encrypt_sk(&mut res, &sk_lwe, &sk_lwe2, &noise, &mut src(115), &mut src(116), s); res.to_ref().data().data().to_vec() }) }
+                    137 => { let mut res = GLWEToLWEKey::alloc_from_infos(&lk);
+                        $go(module.glwe_to_lwe_key_encrypt_sk_tmp_bytes(&lk), &mut |s: &mut Scratch<$T>| {
+                            module.glwe_to_lwe_key_encrypt_sk(&mut res, &sk_lwe, &sk_in, &noise, &mut src(115), &mut src(116), s); res.to_ref().data().data().to_vec() }) }
+                    _ => { let mut res = LWEToGLWEKey::alloc_from_infos(&lk);
+                        $go(module.lwe_to_glwe_key_encrypt_sk_tmp_bytes(&lk), &mut |s: &mut Scratch<$T>| {
+                            module.lwe_to_glwe_key_encrypt_sk(&mut res, &sk_lwe, &skp, &noise, &mut src(115), &mut src(116), s); res.to_ref().data().data().to_vec() }) }
+                } }
+            140 | 141 | 146 => { // ggsw_keyswitch / ggsw_automorphism / ggsw_from_gglwe [be n | res ggsw(6) a ggsw(6) key(6) tsk(6)]
+                let (lr, la, lk, lt) = (ggsw_l(n, &p[2..8]), ggsw_l(n, &p[8..14]), gglwe_l(n, &p[14..20]), gglwe_l(n, &p[20..26]));
+                let mut key = GGLWE::alloc_from_infos(&lk); key.fill_uniform(u(p[14]), &mut src(120));
+                let mut kp = module.glwe_automorphism_key_prepared_alloc_from_infos(&lk);
+                let mut sb = big(module.gglwe_prepare_tmp_bytes(&lk)); module.gglwe_prepare(&mut kp, &key, sb.borrow()); kp.set_p(module.galois_element(1));
+                let mut tsk = GGLWEToGGSWKey::alloc_from_infos(&lt); tsk.fill_uniform(u(p[20]), &mut src(121));
+                let mut tp = module.gglwe_to_ggsw_key_prepared_alloc_from_infos(&lt);
+                let mut sb2 = big(module.gglwe_to_ggsw_key_prepare_tmp_bytes(&lt)); module.gglwe_to_ggsw_key_prepare(&mut tp, &tsk, sb2.borrow());
+                let mut a = GGSW::alloc_from_infos(&la); a.fill_uniform(u(p[8]), &mut src(122));
+                let mut r0 = GGSW::alloc_from_infos(&lr); r0.fill_uniform(u(p[2]), &mut src(123));
+                let dump = |r: &GGSW<Vec<u8>>| -> Vec<u8> { let mut o = Vec::new(); for i in 0..u(p[6]) { for j in 0..u(p[4]) + 1 { o.extend_from_slice(r.at(i, j).data().data); } } o };
+                match $op {
+                    140 => $go(module.ggsw_keyswitch_tmp_bytes(&lr, &la, &lk, &lt), &mut |s: &mut Scratch<$T>| {
+                        let mut r = r0.clone(); module.ggsw_keyswitch(&mut r, &a, &kp, &tp, s); dump(&r) }),
+                    141 => $go(module.ggsw_automorphism_tmp_bytes(&lr, &la, &lk, &lt), &mut |s: &mut Scratch<$T>| {
+                        let mut r = r0.clone(); module.ggsw_automorphism(&mut r, &a, &kp, &tp, s); dump(&r) }),
+                    _ => { // a GGLWE with rank_in = 1 of the same shape as the GGSW rows
+                        let lga = GGLWELayout { n: lr.n, base2k: lr.base2k, k: lr.k, rank_in: Rank(1), rank_out: lr.rank, dnum: lr.dnum, dsize: lr.dsize };
+                        let mut ag = GGLWE::alloc_from_infos(&lga); ag.fill_uniform(u(p[2]), &mut src(124));
+                        $go(module.ggsw_from_gglwe_tmp_bytes(&lr, &lt), &mut |s: &mut Scratch<$T>| {
+                            let mut r = r0.clone(); module.ggsw_from_gglwe(&mut r, &ag, &tp, s); dump(&r) }) }
+                } }
+            142 => { // glwe_automorphism_key_automorphism [be n | res key(6) a key(6) key(6)]
+                let (lr, la, lk) = (gglwe_l(n, &p[2..8]), gglwe_l(n, &p[8..14]), gglwe_l(n, &p[14..20]));
+                let mut key = GGLWE::alloc_from_infos(&lk); key.fill_uniform(u(p[14]), &mut src(125));
+                let mut kp = module.glwe_automorphism_key_prepared_alloc_from_infos(&lk);
+                let mut sb = big(module.gglwe_prepare_tmp_bytes(&lk)); module.gglwe_prepare(&mut kp, &key, sb.borrow()); kp.set_p(module.galois_element(1));
+                let mut a = GLWEAutomorphismKey::alloc_from_infos(&la); a.fill_uniform(u(p[8]), &mut src(126)); a.set_p(module.galois_element(2));
+                $go(module.glwe_automorphism_key_automorphism_tmp_bytes(&lr, &la, &lk), &mut |s: &mut Scratch<$T>| {
+                    let mut r = GLWEAutomorphismKey::alloc_from_infos(&lr); module.glwe_automorphism_key_automorphism(&mut r, &a, &kp, s); r.to_ref().data().data().to_vec() }) }
+            143 | 144 | 145 => { // lwe_keyswitch / glwe_from_lwe / lwe_from_glwe [be n | lwe_res(b2k k n_lwe) lwe_a(b2k k n_lwe) glwe(6) key(6)]
+                let lres = LWELayout { n: Degree(p[4] as u32), k: TorusPrecision(p[3] as u32), base2k: Base2K(p[2] as u32) };
+                let la = LWELayout { n: Degree(p[7] as u32), k: TorusPrecision(p[6] as u32), base2k: Base2K(p[5] as u32) };
+                let (lg, lk) = (glwe_l(n, &p[8..14]), gglwe_l(n, &p[14..20]));
+                let mut key = GGLWE::alloc_from_infos(&lk); key.fill_uniform(u(p[14]), &mut src(127));
+                let mut kp = module.gglwe_prepared_alloc_from_infos(&lk);
+                let mut sb = big(module.gglwe_prepare_tmp_bytes(&lk)); module.gglwe_prepare(&mut kp, &key, sb.borrow());
+                let mut a = LWE::alloc_from_infos(&la); a.fill_uniform(u(p[5]), &mut src(128));
+                let mut g = GLWE::alloc_from_infos(&lg); g.fill_uniform(u(p[8]), &mut src(129));
+                match $op {
+                    143 => $go(module.lwe_keyswitch_tmp_bytes(&lres, &la, &lk), &mut |s: &mut Scratch<$T>| {
+                        let mut r = LWE::alloc_from_infos(&lres); module.lwe_keyswitch(&mut r, &a, &kp, s); r.data().data.clone() }),
+                    144 => $go(module.glwe_from_lwe_tmp_bytes(&lg, &la, &lk), &mut |s: &mut Scratch<$T>| {
+                        let mut r = GLWE::alloc_from_infos(&lg); module.glwe_from_lwe(&mut r, &a, &kp, s); r.data().data.clone() }),
+                    _ => $go(module.lwe_from_glwe_tmp_bytes(&lres, &lg, &lk), &mut |s: &mut Scratch<$T>| {
+                        let mut r = LWE::alloc_from_infos(&lres); module.lwe_from_glwe(&mut r, &g, 0, &kp, s); r.data().data.clone() }),
+                } }
+            147 => { // glwe_pack [be n | res(6) key(6) count]
+                let (lr, lk) = (glwe_l(n, &p[2..8]), gglwe_l(n, &p[8..14])); let cnt = u(p[14]);
+                let mut keys: HashMap<i64, GLWEAutomorphismKeyPrepared<DeviceBuf<$T>, $T>> = HashMap::new();
+                for (j, g) in module.glwe_pack_galois_elements().into_iter().enumerate() {
+                    let mut key = GGLWE::alloc_from_infos(&lk); key.fill_uniform(u(p[8]), &mut src(130 + j as u64));
+                    let mut kp = module.glwe_automorphism_key_prepared_alloc_from_infos(&lk);
+                    let mut sb = big(module.gglwe_prepare_tmp_bytes(&lk)); module.gglwe_prepare(&mut kp, &key, sb.borrow());
+                    kp.set_p(g); keys.insert(g, kp);
+                }
+                let cts0: Vec<GLWE<Vec<u8>>> = (0..cnt).map(|i| { let mut c = GLWE::alloc_from_infos(&lr); c.fill_uniform(u(p[2]), &mut src(150 + i as u64)); c }).collect();
+                $go(module.glwe_pack_tmp_bytes(&lr, &lk), &mut |s: &mut Scratch<$T>| {
+                    let mut cts = cts0.clone(); let mut r = GLWE::alloc_from_infos(&lr);
+                    let mut m: HashMap<usize, &mut GLWE<Vec<u8>>> = HashMap::new();
+                    for (i, c) in cts.iter_mut().enumerate() { m.insert(i, c); }
+                    module.glwe_pack(&mut r, m, 0, &keys, s); r.data().data.clone() }) }
+            148 | 149 | 150 | 151 | 152 => { // tensor_relinearize / tensor_square_apply / mul_plain_assign / mul_const_assign / tensor_apply_add_assign
+                                               // [be n | res(6) a(6) key(6) cnv_offset]
+                let (lr, la, lk) = (glwe_l(n, &p[2..8]), glwe_l(n, &p[8..14]), gglwe_l(n, &p[14..20])); let off = u(p[20]);
+                let mut a = GLWE::alloc_from_infos(&la); a.fill_uniform(u(p[8]), &mut src(160));
+                let ak = u(p[9]);
+                match $op {
+                    148 => {
+                        let mut key = GLWETensorKey::alloc_from_infos(&lk); key.fill_uniform(u(p[14]), &mut src(161));
+                        let mut kp = module.alloc_tensor_key_prepared_from_infos(&lk);
+                        let mut sb = big(module.prepare_tensor_key_tmp_bytes(&lk)); module.prepare_tensor_key(&mut kp, &key, sb.borrow());
+                        let mut t = GLWETensor::alloc_from_infos(&la); t.fill_uniform(u(p[8]), &mut src(162));
+                        let tsk_size = lk.size();
+                        $go(module.glwe_tensor_relinearize_tmp_bytes(&lr, &la, &kp), &mut |s: &mut Scratch<$T>| {
+                            let mut r = GLWE::alloc_from_infos(&lr); module.glwe_tensor_relinearize(&mut r, &t, &kp, tsk_size, s); r.data().data.clone() }) }
+                    149 => { let mut r = GLWETensor::alloc_from_infos(&lr);
+                        $go(module.glwe_tensor_square_apply_tmp_bytes(&lr, &la), &mut |s: &mut Scratch<$T>| {
+                            module.glwe_tensor_square_apply(off, &mut r, &a, ak, s); r.data().data.clone() }) }
+                    150 => { let mut b = GLWEPlaintext::alloc_from_infos(&la); module.vec_znx_fill_uniform(u(p[8]), &mut b.data, 0, &mut src(163));
+                        $go(module.glwe_mul_plain_tmp_bytes(&la, &la, &la), &mut |s: &mut Scratch<$T>| {
+                            let mut r = a.clone(); module.glwe_mul_plain_assign(off, &mut r, ak, &b, ak, s); r.data().data.clone() }) }
+                    151 => { let b: Vec<i64> = (0..3).map(|i| (i as i64 * 7919 + 13) % 1000 - 500).collect();
+                        $go(module.glwe_mul_const_tmp_bytes(&la, &la, b.len()), &mut |s: &mut Scratch<$T>| {
+                            let mut r = a.clone(); module.glwe_mul_const_assign(off, &mut r, &b, s); r.data().data.clone() }) }
+                    _ => { let mut r0 = GLWETensor::alloc_from_infos(&lr); r0.fill_uniform(u(p[2]), &mut src(164));
+                        $go(module.glwe_tensor_apply_tmp_bytes(&lr, &la, &la), &mut |s: &mut Scratch<$T>| {
+                            let mut r = r0.clone(); module.glwe_tensor_apply_add_assign(off, &mut r, &a, ak, &a, ak, s); r.data().data.clone() }) }
+                } }
+            180 | 181 | 182 => { // blind rotation (CGGI): key encryption / key preparation / execute (oracle only)
+                                 // [be n | n_lwe block base2k k_brk rows k_res rank ext]
+                let (nl, block, b2k, kbrk, rows, kres, rank, ext) = (u(p[2]), u(p[3]), p[4] as u32, p[5] as u32, p[6] as u32, p[7] as u32, p[8] as u32, u(p[9]));
+                let brl = BlindRotationKeyLayout { n_glwe: Degree(n as u32), n_lwe: Degree(nl as u32), base2k: Base2K(b2k), k: TorusPrecision(kbrk), dnum: Dnum(rows), rank: Rank(rank) };
+                let gl = GLWELayout { n: Degree(n as u32), base2k: Base2K(b2k), k: TorusPrecision(kres), rank: Rank(rank) };
+                let noise = NoiseInfos::new(kbrk as usize, poulpy_core::DEFAULT_SIGMA_XE, 6.0 * poulpy_core::DEFAULT_SIGMA_XE).unwrap();
+                let mut sk = GLWESecret::alloc_from_infos(&gl); sk.fill_ternary_prob(0.5, &mut src(190));
+                let mut skp = module.glwe_secret_prepared_alloc_from_infos(&gl); module.glwe_secret_prepare(&mut skp, &sk);
+                let mut skl = LWESecret::alloc(Degree(nl as u32)); skl.fill_binary_block(block, &mut src(191));
+                let mut brk: BlindRotationKey<Vec<u8>, CGGI> = BlindRotationKey::<Vec<u8>, CGGI>::alloc(&brl);
+                let mut sb = big(BlindRotationKey::<Vec<u8>, CGGI>::encrypt_sk_tmp_bytes(&module, &brl));
+                module.blind_rotation_key_encrypt_sk(&mut brk, &skp, &skl, &noise, &mut src(192), &mut src(193), sb.borrow());
+                match $op {
+                    180 => $go(BlindRotationKey::<Vec<u8>, CGGI>::encrypt_sk_tmp_bytes(&module, &brl), &mut |s: &mut Scratch<$T>| {
+                        let mut k2: BlindRotationKey<Vec<u8>, CGGI> = BlindRotationKey::<Vec<u8>, CGGI>::alloc(&brl);
+                        module.blind_rotation_key_encrypt_sk(&mut k2, &skp, &skl, &noise, &mut src(192), &mut src(193), s); ser_bytes(&k2) }),
+                    181 => { let mut lwe = LWE::alloc(Degree(nl as u32), Base2K(b2k), TorusPrecision(b2k)); lwe.fill_uniform(b2k as usize, &mut src(194));
+                        let lut = { let li = LookUpTableLayout { n: Degree(n as u32), extension_factor: ext, k: TorusPrecision(kres), base2k: Base2K(b2k) };
+                                    let mut l = LookupTable::alloc(&li); let f: Vec<i64> = (0..8).collect(); l.set(&module, &f, 4); l };
+                        let mut sx = big(BlindRotationKeyPrepared::<DeviceBuf<$T>, CGGI, $T>::execute_tmp_bytes(&module, block, ext, &gl, &brl));
+                        $go(BlindRotationKeyPrepared::<DeviceBuf<$T>, CGGI, $T>::prepare_tmp_bytes(&module, &brl), &mut |s: &mut Scratch<$T>| {
+                            let mut kp: BlindRotationKeyPrepared<DeviceBuf<$T>, CGGI, $T> = BlindRotationKeyPrepared::alloc(&module, &brk);
+                            kp.prepare(&module, &brk, s);
+                            let mut res = GLWE::alloc_from_infos(&gl); kp.execute(&module, &mut res, &lwe, &lut, sx.borrow()); res.data().data.clone() }) }
+                    _ => { let mut lwe = LWE::alloc(Degree(nl as u32), Base2K(b2k), TorusPrecision(b2k)); lwe.fill_uniform(b2k as usize, &mut src(194));
+                        let lut = { let li = LookUpTableLayout { n: Degree(n as u32), extension_factor: ext, k: TorusPrecision(kres), base2k: Base2K(b2k) };
+                                    let mut l = LookupTable::alloc(&li); let f: Vec<i64> = (0..8).collect(); l.set(&module, &f, 4); l };
+                        let mut kp: BlindRotationKeyPrepared<DeviceBuf<$T>, CGGI, $T> = BlindRotationKeyPrepared::alloc(&module, &brk);
+                        let mut sp = big(BlindRotationKeyPrepared::<DeviceBuf<$T>, CGGI, $T>::prepare_tmp_bytes(&module, &brl)); kp.prepare(&module, &brk, sp.borrow());
+                        $go(BlindRotationKeyPrepared::<DeviceBuf<$T>, CGGI, $T>::execute_tmp_bytes(&module, block, ext, &gl, &brl), &mut |s: &mut Scratch<$T>| {
+                            let mut res = GLWE::alloc_from_infos(&gl); kp.execute(&module, &mut res, &lwe, &lut, s); res.data().data.clone() }) }
+                } }
             other => panic!("c12: unknown op {}", other),
         }
+    }};
+}
+
+/// CKKS leveled operations (oracle only) [be n | base2k k_ct log_delta]; CKKSImpl is implemented for the AVX backends only under a
+/// feature the shared harness manifest does not enable, so these run on the two reference backends.
+macro_rules! ckks_body {
+    ($T:ident, $op:expr, $p:expr, $go:expr) => {{
+        type M = Module<$T>;
+        let p: &[i128] = $p;
+        let n = u(p[1]);
+        let module: M = M::new(n as u64);
+        let big = |bytes: usize| -> ScratchOwned<$T> { ScratchOwned::<$T>::alloc(bytes + (1 << 16)) };
+                let (b2k, kct, ld) = (u(p[2]), u(p[3]), u(p[4]));
+                let gl = GLWELayout { n: Degree(n as u32), base2k: Base2K(b2k as u32), k: TorusPrecision(kct as u32), rank: Rank(1) };
+                let kk = kct + b2k; let dnum = kk.div_ceil(b2k);
+                let kl = GGLWELayout { n: gl.n, base2k: gl.base2k, k: TorusPrecision(kk as u32), rank_in: Rank(1), rank_out: Rank(1), dnum: Dnum(dnum as u32), dsize: Dsize(1) };
+                let noise = NoiseInfos::new(kct, poulpy_core::DEFAULT_SIGMA_XE, 6.0 * poulpy_core::DEFAULT_SIGMA_XE).unwrap();
+                let mut sk = GLWESecret::alloc(gl.n, Rank(1)); sk.fill_ternary_prob(0.5, &mut src(170));
+                let mut skp = module.glwe_secret_prepared_alloc(Rank(1)); module.glwe_secret_prepare(&mut skp, &sk);
+                let mut tk = GLWETensorKey::alloc_from_infos(&kl); tk.fill_uniform(b2k, &mut src(171));
+                let mut tkp = module.alloc_tensor_key_prepared_from_infos(&kl);
+                let mut sb = big(module.prepare_tensor_key_tmp_bytes(&kl)); module.prepare_tensor_key(&mut tkp, &tk, sb.borrow());
+                let mut atks: HashMap<i64, GLWEAutomorphismKeyPrepared<DeviceBuf<$T>, $T>> = HashMap::new();
+                for (j, (idx, g)) in [(1i64, module.galois_element(1)), (-1i64, -1i64)].into_iter().enumerate() {
+                    let mut key = GGLWE::alloc_from_infos(&kl); key.fill_uniform(b2k, &mut src(172 + j as u64));
+                    let mut kp = module.glwe_automorphism_key_prepared_alloc_from_infos(&kl);
+                    let mut sb = big(module.gglwe_prepare_tmp_bytes(&kl)); module.gglwe_prepare(&mut kp, &key, sb.borrow());
+                    kp.set_p(g); atks.insert(idx, kp); // rotation keys are looked up by rotation index; -1 = conjugation
+                }
+                let meta = CKKSMeta { log_delta: ld, log_budget: kct - ld - b2k };
+                let mut pt = CKKSPlaintextVecZnx::alloc(gl.n, gl.base2k, meta);
+                module.vec_znx_fill_uniform(b2k, &mut pt.data, 0, &mut src(175));
+                let mk = |s1: u64, s2: u64| -> CKKSCiphertext<Vec<u8>> {
+                    let mut sc = big(module.ckks_encrypt_sk_tmp_bytes(&gl)); let mut c = CKKSCiphertext::alloc(gl.n, gl.k, gl.base2k);
+                    module.ckks_encrypt_sk(&mut c, &pt, &skp, &noise, &mut src(s1), &mut src(s2), sc.borrow()).unwrap(); c };
+                let (a, b) = (mk(176, 177), mk(178, 179));
+                let bytes = |c: &CKKSCiphertext<Vec<u8>>| -> Vec<u8> { c.data().data.clone() };
+                let conj = atks.get(&-1i64).unwrap();
+                match $op {
+                    160 => $go(module.ckks_encrypt_sk_tmp_bytes(&gl), &mut |s: &mut Scratch<$T>| {
+                        let mut r = CKKSCiphertext::alloc(gl.n, gl.k, gl.base2k);
+                        module.ckks_encrypt_sk(&mut r, &pt, &skp, &noise, &mut src(180), &mut src(181), s).unwrap(); bytes(&r) }),
+                    161 => $go(module.ckks_decrypt_tmp_bytes(&gl), &mut |s: &mut Scratch<$T>| {
+                        let mut o = CKKSPlaintextVecZnx::alloc(gl.n, gl.base2k, meta); module.ckks_decrypt(&mut o, &a, &skp, s).unwrap(); o.data.data.clone() }),
+                    162 => $go(module.ckks_add_tmp_bytes(), &mut |s: &mut Scratch<$T>| {
+                        let mut r = CKKSCiphertext::alloc(gl.n, gl.k, gl.base2k); module.ckks_add_into(&mut r, &a, &b, s).unwrap(); bytes(&r) }),
+                    163 => $go(module.ckks_mul_tmp_bytes(&gl, &kl), &mut |s: &mut Scratch<$T>| {
+                        let mut r = CKKSCiphertext::alloc(gl.n, gl.k, gl.base2k); module.ckks_mul_into(&mut r, &a, &b, &tkp, s).unwrap(); bytes(&r) }),
+                    164 => $go(module.ckks_square_tmp_bytes(&gl, &kl), &mut |s: &mut Scratch<$T>| {
+                        let mut r = CKKSCiphertext::alloc(gl.n, gl.k, gl.base2k); module.ckks_square_into(&mut r, &a, &tkp, s).unwrap(); bytes(&r) }),
+                    165 => $go(module.ckks_mul_pt_vec_znx_tmp_bytes(&gl, &gl, &meta), &mut |s: &mut Scratch<$T>| {
+                        let mut r = CKKSCiphertext::alloc(gl.n, gl.k, gl.base2k); module.ckks_mul_pt_vec_znx_into(&mut r, &a, &pt, s).unwrap(); bytes(&r) }),
+                    166 => $go(module.ckks_rescale_tmp_bytes(), &mut |s: &mut Scratch<$T>| {
+                        let mut r = mk(176, 177); module.ckks_rescale_assign(&mut r, b2k / 2, s).unwrap(); bytes(&r) }),
+                    167 => $go(module.ckks_rotate_tmp_bytes(&gl, &kl), &mut |s: &mut Scratch<$T>| {
+                        let mut r = CKKSCiphertext::alloc(gl.n, gl.k, gl.base2k); module.ckks_rotate_into(&mut r, &a, 1, &atks, s).unwrap(); bytes(&r) }),
+                    168 => $go(module.ckks_conjugate_tmp_bytes(&gl, &kl), &mut |s: &mut Scratch<$T>| {
+                        let mut r = CKKSCiphertext::alloc(gl.n, gl.k, gl.base2k); module.ckks_conjugate_into(&mut r, &a, conj, s).unwrap(); bytes(&r) }),
+                    169 => $go(module.ckks_mul_pow2_tmp_bytes(), &mut |s: &mut Scratch<$T>| {
+                        let mut r = CKKSCiphertext::alloc(gl.n, gl.k, gl.base2k); module.ckks_mul_pow2_into(&mut r, &a, 3, s).unwrap(); bytes(&r) }),
+                    170 => $go(module.ckks_div_pow2_tmp_bytes(), &mut |s: &mut Scratch<$T>| {
+                        let mut r = CKKSCiphertext::alloc(gl.n, gl.k, gl.base2k); module.ckks_div_pow2_into(&mut r, &a, 3, s).unwrap(); bytes(&r) }),
+                    171 => $go(module.ckks_add_pt_vec_znx_tmp_bytes(), &mut |s: &mut Scratch<$T>| {
+                        let mut r = CKKSCiphertext::alloc(gl.n, gl.k, gl.base2k); module.ckks_add_pt_vec_znx_into(&mut r, &a, &pt, s).unwrap(); bytes(&r) }),
+                    172 => $go(module.ckks_neg_tmp_bytes(), &mut |s: &mut Scratch<$T>| {
+                        let mut r = CKKSCiphertext::alloc(gl.n, gl.k, gl.base2k); module.ckks_neg_into(&mut r, &a, s).unwrap(); bytes(&r) }),
+                    _ => $go(module.ckks_align_tmp_bytes(), &mut |s: &mut Scratch<$T>| {
+                        let (mut x, mut y) = (mk(176, 177), mk(178, 179)); let mut sc = big(module.ckks_rescale_tmp_bytes()); module.ckks_rescale_assign(&mut y, 5, sc.borrow()).unwrap();
+                        module.ckks_align_assign(&mut x, &mut y, s).unwrap(); let mut o = bytes(&x); o.extend(bytes(&y)); o }),
+                }
     }};
 }
 
@@ -418,6 +652,15 @@ fn run(r: &Rec) -> Vec<Vec<i128>> {
     let be = r.ps[0] as i64;
     let (mode, op) = if r.code < 12500 { (0, r.code - 12000) } else if r.code < 12700 { (1, r.code - 12500) } else { (2, r.code - 12700) };
     let p: &[i128] = &r.ps;
+    if (160..=173).contains(&op) {
+        use poulpy_cpu_ref::{FFT64Ref, NTT120Ref};
+        let v: Vec<i128> = match be {
+            1 => ckks_body!(FFT64Ref, op, p, exact_twice::<FFT64Ref>),
+            3 => ckks_body!(NTT120Ref, op, p, exact_twice::<NTT120Ref>),
+            _ => panic!("c12: CKKS operations run on the reference backends only"),
+        };
+        return vec![v];
+    }
     let v: Vec<i128> = with_be!(be, T, {
         match mode { 0 => body!(T, op, p, formula_only::<T>), 1 => body!(T, op, p, exact_once::<T>), _ => body!(T, op, p, exact_twice::<T>) }
     });
@@ -524,6 +767,70 @@ pub fn generate(tier: &str, seed: u64) -> Vec<Rec> {
             if n == 8 {
                 for &(th, len) in &[(1i128, 320144i128), (2, 320144), (3, 100), (4, 4096), (2, 64), (5, 0), (3, 8)] {
                     g.push(60, vec![be, n, th, len], true, true);
+                }
+            }
+            // ---- oracle-only batch (independence phase only; n >= 8 so that the n < 8 family is not multiplied)
+            if n >= 8 && n <= 16 && (refbe || n == 8) {
+                let k3: &[(i128, i128, i128, i128, i128, i128)] = &[(17, 51, 1, 1, 2, 1), (12, 72, 2, 2, 3, 2), (17, 34, 1, 1, 1, 1), (15, 75, 2, 1, 2, 2)];
+                for &(kb, kk, rout, rin, dnum, dsize) in k3 {
+                    let key = inf(kb, kk, rout, rin, dnum, dsize);
+                    let mk = |op: i64| -> Vec<i128> { let mut v = vec![be, n]; v.extend(&key); v.push(if op % 2 == 0 { 7 } else { n - 1 }); v };
+                    g.push(130, mk(130), true, false);
+                    g.push(132, mk(132), true, false);
+                    if rin == rout {
+                        for &op in &[131i64, 133, 134, 135] { g.push(op, mk(op), true, false); }
+                    }
+                    if dsize == 1 && rout == 1 { g.push(137, mk(137), true, false); }
+                    if dsize == 1 && rin == 1 { g.push(138, mk(138), true, false); }
+                    if dsize == 1 && rin == 1 && rout == 1 { g.push(136, mk(136), true, false); }
+                    if rin == rout {
+                        // GGSW key-switch / automorphism / expansion: res, a GGSWs of 2 rows in the key's radix resp. a different one
+                        for &(ab, ak) in &[(kb, 2 * kb), (kb - 2, 3 * (kb - 2))] {
+                            let mut v = vec![be, n];
+                            v.extend(&inf(ab, ak + ab, rout, rout, 2, 1)); v.extend(&inf(ab, ak + ab, rout, rout, 2, 1)); v.extend(&key);
+                            v.extend(&inf(kb, kk, rout, rout, dnum, dsize));
+                            g.push(140, v.clone(), true, false);
+                            g.push(141, v.clone(), true, false);
+                            g.push(146, v, true, false);
+                            let mut w = vec![be, n];
+                            w.extend(&inf(ab, ak + ab, rout, rout, 2, 1)); w.extend(&inf(ab, ak + ab, rout, rout, 2, 1)); w.extend(&key);
+                            g.push(142, w, true, false);
+                        }
+                        let mut v = vec![be, n]; v.extend(&inf(kb, kk - kb, rout, rout, 0, 1)); v.extend(&key); v.push(3);
+                        g.push(147, v, true, false);
+                        for &(ab, ak, off) in &[(kb, 2 * kb, 0i128), (kb - 2, 3 * (kb - 2), kb + 3)] {
+                            let mut v = vec![be, n];
+                            v.extend(&inf(kb, kk - kb, rout, rout, 0, 1)); v.extend(&inf(ab, ak, rout, rout, 0, 1)); v.extend(&key); v.push(off);
+                            for &op in &[148i64, 149, 150, 151, 152] { g.push(op, v.clone(), true, false); }
+                        }
+                    }
+                    if dsize == 1 {
+                        // LWE <-> GLWE conversions and LWE key-switch: [lwe_res(b2k k n_lwe) lwe_a(b2k k n_lwe) glwe(6) key(6)]
+                        let lw = |b: i128, k: i128, nl: i128| vec![b, k, nl];
+                        if rin == 1 && rout == 1 {
+                            let mut v = vec![be, n]; v.extend(lw(kb - 1, 2 * (kb - 1), 7)); v.extend(lw(kb, 2 * kb + 1, n - 1)); v.extend(&inf(kb, 2 * kb, 1, 1, 0, 1)); v.extend(&key);
+                            g.push(143, v, true, false);
+                        }
+                        if rin == 1 {
+                            let mut v = vec![be, n]; v.extend(lw(kb, 2 * kb, 7)); v.extend(lw(kb - 1, 2 * kb, 7)); v.extend(&inf(kb - 2, 3 * kb, rout, rout, 0, 1)); v.extend(&key);
+                            g.push(144, v, true, false);
+                        }
+                        if rout == 1 {
+                            let mut v = vec![be, n]; v.extend(lw(kb - 1, 2 * kb, 7)); v.extend(lw(kb, 2 * kb, 7)); v.extend(&inf(kb - 2, 3 * kb, rin, rin, 0, 1)); v.extend(&key);
+                            g.push(145, v, true, false);
+                        }
+                    }
+                }
+            }
+            if n >= 8 && n <= 16 && (refbe || n == 8) {
+                // blind rotation: [n_lwe block base2k k_brk rows k_res rank ext]
+                for &(nl, block, b2k, kbrk, rows, kres, rank, ext) in &[(6i128, 3i128, 17i128, 51i128, 2i128, 34i128, 1i128, 1i128), (7, 7, 15, 45, 2, 30, 1, 2), (4, 2, 12, 48, 3, 36, 2, 1)] {
+                    for op in 180..=182i64 { g.push(op, vec![be, n, nl, block, b2k, kbrk, rows, kres, rank, ext], true, false); }
+                }
+            }
+            if n >= 8 && n <= 16 && refbe {
+                for &(b2k, kct, ld) in &[(17i128, 85i128, 30i128), (12, 84, 20)] {
+                    for op in 160..=173i64 { g.push(op, vec![be, n, b2k, kct, ld], true, false); }
                 }
             }
             // ---- core
